@@ -174,6 +174,17 @@ DeleteAt(ts, i) ==
     ELSE IF ts[i].k = "o" THEN SubSeq(ts, 1, i - 1) \o SubSeq(ts, CloseOf(ts, i, 0) + 1, Len(ts))
     ELSE ts
 
+(* strip_tags called ON an inline element (span.remove_spans(), link.strip_tags(...)): when the element's own tag  *)
+(* is stripped the call returns a NEW paragraph holding what was inside (nested tags of that kind stripped too)     *)
+(* followed by the element's tail, and leaves the paragraph alone; otherwise it works in place, inside the element  *)
+StripSelf(ts, i, g, withTail) ==
+    IF ts[i].k # "o" THEN ts
+    ELSE LET j == CloseOf(ts, i, 0)
+             inner == StripTags(SubSeq(ts, i + 1, j - 1), g, <<>>)
+         IN IF ts[i].tag = g
+            THEN inner \o (IF withTail /\ j < Len(ts) /\ ts[j + 1].k = "t" THEN <<ts[j + 1]>> ELSE <<>>)
+            ELSE SubSeq(ts, 1, i) \o inner \o SubSeq(ts, j, Len(ts))
+
 (* white-space elements folded into the character data around them: the    *)
 (* form in which model and implementation are compared (how a run of spaces *)
 (* is split between characters and text:s is C05's business)                *)
@@ -218,6 +229,7 @@ ApplyOp(ts, o) ==
       [] o.op = "mark_content"    -> MarkContent(ts, o.p, o.nth)
       [] o.op = "strip_tags"      -> StripTags(ts, o.tag, <<>>)
       [] o.op = "delete"          -> DeleteAt(ts, o.i)
+      [] o.op = "strip_self"      -> StripSelf(ts, o.i, o.tag, TRUE)
 
 (* text of the characters inside the element starting at i *)
 Inside(ts, i) == IF ts[i].k = "o" THEN Decode(SubSeq(ts, i, CloseOf(ts, i, 0))) ELSE <<>>
